@@ -132,6 +132,16 @@ pub enum Op {
     DropIter { it: usize },
     /// F3 variant: leak the iterator (`mem::forget`): its matcher state is never dropped.
     ForgetIter { it: usize },
+    /// Long history on one object: `n` identical simple calls (is_match / replace_all), each
+    /// compared with the reference; logged as one event. Used by the soak flavour to walk
+    /// call counters across 2^8 / 2^16 boundaries.
+    Soak {
+        slot: usize,
+        method: Method,
+        input: String,
+        repl: String,
+        n: usize,
+    },
     /// Legal but unusual: `Debug`-format the object (and the thread's live iterators) in
     /// the middle of a history. The text is not compared; later results must not change.
     DebugFmt { slot: usize },
@@ -188,6 +198,10 @@ pub struct RunSpec {
     /// long-lived caller threads (whose thread-local storage carries history).
     #[serde(default)]
     pub fresh_threads: bool,
+    /// `late[j] = Some(i)`: caller thread j starts only after caller thread i has exited
+    /// (with fresh threads: after its OS thread is gone and its thread-local destructors ran).
+    #[serde(default)]
+    pub late: Option<Vec<Option<usize>>>,
 }
 
 impl RunSpec {
@@ -259,6 +273,12 @@ pub struct RunRecord {
     pub forgotten_iters: u64,
     #[serde(default)]
     pub debug_fmts: u64,
+    #[serde(default)]
+    pub soak_calls: u64,
+    #[serde(default)]
+    pub thread_exits_joined: u64,
+    #[serde(default)]
+    pub late_starts: u64,
     pub recompiles: u64,
     pub stalled: u64,
     pub cold: bool,
